@@ -430,11 +430,11 @@ func checkC08(c *hx.Checker) {
 			}
 		}
 	}
-	for _, sh := range [][]int{{4, 5, 6}, {7, 2, 9}, {2, 3, 4, 5}, {33, 4}} {
+	for _, sh := range [][]int{{4, 5, 6}, {7, 2, 9}, {2, 3, 4, 5}, {33, 4}, {3, 1367}, {67, 5, 13}, {257, 129}, {4099}} {
 		data := ref.Distinct(ref.F32, sh)
 		r := len(sh)
-		for pi, p := range perms(r) {
-			if pi%3 == 0 {
+		for _, p := range perms(r) {
+			{
 				exp, err := ref.Transpose(data, p, true)
 				add("Transpose", []hx.Attr{hx.AInts("perm", p...)}, []*ref.T{data}, exp, err, true, "op", nil, "large"+fmt.Sprint(p), "large")
 			}
